@@ -25,6 +25,17 @@ def zones(b):
     return list(b.model.CurrencyZoneList)
 
 
+def zone_sectors(b, zone):
+    """The sectors of a currency zone, derived from the countries (each country knows its zone and its sectors), not
+    from CurrencyZone.GetSectors(): the membership the properties talk about must not depend on the very lookup the
+    markets use."""
+    out = []
+    for c in b.model.CountryList:
+        if c.CurrencyZone is zone:
+            out.extend(list(c.GetSectors()))
+    return out
+
+
 def sfc_by_zone(b):
     """C01: for every currency zone that has a sector with financial assets:
     resid[k] = sum_s (F_s[k]-F_s[k-1]) + NET_zone[k], for k = 1..T.  -> {currency: [bool per k>=1]}, details"""
@@ -33,7 +44,7 @@ def sfc_by_zone(b):
     detail = {}
     ext = b.model.ExternalSector
     for z in zones(b):
-        secs = [s for s in z.GetSectors() if s.HasF]
+        secs = [s for s in zone_sectors(b, z) if s.HasF]
         if not secs:
             continue
         names = [s.GetVariableName('F') for s in secs]
@@ -174,7 +185,7 @@ def markets(b):
         dem = _series(b, m.GetVariableName('DEM_' + code))
         sup = _series(b, m.GetVariableName('SUP_' + code))
         demanders = []
-        for s in zone.GetSectors():
+        for s in zone_sectors(b, zone):
             if s is m:
                 continue
             var = 'DEM_' + code if s.Parent is m.Parent else 'DEM_' + m.FullCode
@@ -257,7 +268,7 @@ def asset_markets(b):
         zone = m.CurrencyZone
         holders = []
         issuers = []
-        for s in zone.GetSectors():
+        for s in zone_sectors(b, zone):
             if s is m or isinstance(s, FinancialAssetMarket):
                 continue
             if s.Code == m.IssuerShortCode:
